@@ -313,13 +313,10 @@ func Set(ctx context.Context, s *xmpp.Session, item Item) error {
 
 // SetIQ is like Set but it allows you to customize the IQ.
 // Changing the type of the provided IQ has no effect.
+// If the server refuses the change the stanza.Error of its reply is returned.
 func SetIQ(ctx context.Context, iq IQ, s *xmpp.Session) error {
 	iq.Type = stanza.SetIQ
-	resp, err := s.SendIQ(ctx, iq.TokenReader())
-	if err != nil {
-		return err
-	}
-	return resp.Close()
+	return s.UnmarshalIQ(ctx, iq.TokenReader(), nil)
 }
 
 // Delete removes a roster item from the users roster.
